@@ -28,6 +28,8 @@ func init() {
 		Assumptions: []string{"go/version.Compare returns -1/0/+1 with the documented meaning", "go/types fills Info.FileVersions from //go:build constraints and Config.GoVersion"},
 		Run:         runC20,
 		Mutants: []Mutant{
+			{Name: "cache-key-uses-module-version-when-known", File: "lintcmd/runner/runner.go", Rule: "R20.2", KeyPart: "cache-key-includes-GoVersion",
+				Old: "\tfmt.Fprintf(h, \"go %s\\n\", r.GoVersion)\n", New: "\tgoVersion := r.GoVersion\n\tif m := a.Package.Module; m != nil && m.GoVersion != \"\" {\n\t\tgoVersion = \"go\" + m.GoVersion\n\t}\n\tfmt.Fprintf(h, \"go %s\\n\", goVersion)\n"},
 			{Name: "max-lang-writes-min", File: "analysis/report/report.go", Rule: "R20.1", KeyPart: "MaximumLanguageVersion",
 				Old: "func MaximumLanguageVersion(vers string) Option {\n\treturn func(opts *Options) { opts.MaximumLanguageVersion = vers }",
 				New: "func MaximumLanguageVersion(vers string) Option {\n\treturn func(opts *Options) { opts.MinimumLanguageVersion = vers }"},
@@ -320,20 +322,10 @@ func runC20(c *Ctx) {
 			}
 		}
 		c.Check(FuncKey(lfs)+"::configured-Config-is-used", lfs.Pos(), used && len(vals) > 0, "types.NewChecker receives the Config whose GoVersion was set")
-		// cache key
-		hashed := false
-		for _, ci := range CallsTo(do, false, "fmt.Fprintf") {
-			args := ci.Common().Args
-			if !Derives(args[0], IsCallResult(cachePkg+".NewHash")) {
-				continue
-			}
-			for _, a := range args[1:] {
-				if Derives(a, IsFieldOf("runner.Runner", "GoVersion")) {
-					hashed = true
-				}
-			}
-		}
-		c.Check(FuncKey(do)+"::cache-key-includes-GoVersion", do.Pos(), hashed, "the -go value is part of the action's cache key, so results computed for another target version are not reused")
+		// cache key: on every path, unconditionally
+		_, doWrites := hashedFields(do)
+		hashed, whyNot := mustHashed(do, doWrites, "runner.Runner.GoVersion")
+		c.Check(FuncKey(do)+"::cache-key-includes-GoVersion", do.Pos(), hashed, "the -go value is part of the action's cache key on every path (it is what the type checker gets unless it is \"module\"), so results computed for another target version are not reused: %s", whyNot)
 	})
 
 	c.Rule("R20.3", func() {
